@@ -63,6 +63,15 @@ def sim_monotonic_ns() -> int:
     return int(sim_monotonic() * 1e9)
 
 
+def sim_sleep(seconds) -> None:
+    """Part of the clock seam: a sleep takes simulated time only (a
+    wait-with-timeout loop must see its deadline pass)."""
+    seconds = max(0.0, float(seconds))
+    CLOCK.mono += seconds
+    CLOCK.base = CLOCK.base + _real_dt.timedelta(seconds=seconds)
+    CLOCK.time_calls += 1
+
+
 def _now(tz=None):
     # never the same instant twice; a plain datetime, not a subclass instance
     CLOCK.ticks += 1
@@ -132,6 +141,9 @@ def sim_uuid4():
 # ---------------------------------------------------------------------- disk
 
 REAL_OPEN = io.open
+REAL_OS_OPEN = os.open
+REAL_OS_WRITE = os.write
+REAL_OS_CLOSE = os.close
 REAL_MKDIR = os.mkdir
 REAL_REPLACE = os.replace
 REAL_RENAME = os.rename
@@ -167,6 +179,7 @@ STATE = _State()
 
 def arm(spec, root):
     STATE.fault = Fault(spec, root) if spec else None
+    _FDS.clear()
 
 
 def disarm():
@@ -207,20 +220,35 @@ class _FaultyWriter:
             self._real.write(data[:k])
             self._real.flush()
             _crash()
-        if kind == "crash_after_write":
-            fault.fired = True
-            self._real.write(data)
-            self._real.flush()
-            self._real.close()
-            _crash()
         return self._real.write(data)
+
+    def writelines(self, lines):
+        for line in lines:
+            self.write(line)
+
+    def close(self):
+        # "everything was written, then the process died": a writer may use
+        # any number of write() calls, so the point is the close
+        fault = self._fault
+        self._real.close()
+        if (
+            fault.kind == "crash_after_write"
+            and not fault.fired
+            and STATE.fault is fault
+        ):
+            fault.fired = True
+            _crash()
 
     def __enter__(self):
         self._real.__enter__()
         return self
 
     def __exit__(self, *exc):
-        return self._real.__exit__(*exc)
+        if exc and exc[0] is not None:
+            self._real.close()
+        else:
+            self.close()
+        return False
 
     def __getattr__(self, name):
         return getattr(self._real, name)
@@ -240,8 +268,70 @@ _WRITE_KINDS = {
 _READ_KINDS = {"read_eio"}
 
 
+# descriptors opened for writing below the run directory while a fault is
+# armed (os.open / tempfile.mkstemp followed by os.fdopen or os.write)
+_FDS = {}
+
+
+def sim_os_open(path, flags, *args, **kwargs):
+    fault = STATE.fault
+    writing = bool(flags & (os.O_WRONLY | os.O_RDWR))
+    if (
+        fault is not None and not fault.fired and writing
+        and fault.kind in _WRITE_KINDS and fault.covers(path)
+    ):
+        if fault.kind == "open_eio":
+            fault.fired = True
+            raise OSError(errno.EIO, "Input/output error (injected)")
+        if fault.kind == "crash_before_open":
+            fault.fired = True
+            _crash()
+        fd = REAL_OS_OPEN(path, flags, *args, **kwargs)
+        _FDS[fd] = fault
+        return fd
+    return REAL_OS_OPEN(path, flags, *args, **kwargs)
+
+
+def sim_os_write(fd, data):
+    fault = _FDS.get(fd)
+    if fault is None or fault.fired or STATE.fault is not fault:
+        return REAL_OS_WRITE(fd, data)
+    kind = fault.kind
+    if kind == "write_enospc":
+        fault.fired = True
+        raise OSError(errno.ENOSPC, "No space left on device (injected)")
+    k = max(0, min(len(data), (len(data) * fault.permille) // 1000))
+    if kind == "write_eio_after":
+        fault.fired = True
+        REAL_OS_WRITE(fd, data[:k])
+        raise OSError(errno.EIO, "Input/output error (injected)")
+    if kind == "crash_after_bytes":
+        fault.fired = True
+        REAL_OS_WRITE(fd, data[:k])
+        _crash()
+    return REAL_OS_WRITE(fd, data)
+
+
+def sim_os_close(fd):
+    fault = _FDS.pop(fd, None)
+    REAL_OS_CLOSE(fd)
+    if (
+        fault is not None and fault.kind == "crash_after_write"
+        and not fault.fired and STATE.fault is fault
+    ):
+        fault.fired = True
+        _crash()
+
+
 def sim_open(file, mode="r", *args, **kwargs):
     fault = STATE.fault
+    if isinstance(file, int) and file in _FDS:
+        # os.fdopen of a descriptor opened under the armed fault
+        tracked = _FDS.pop(file)
+        real = REAL_OPEN(file, mode, *args, **kwargs)
+        if tracked is fault and not tracked.fired:
+            return _FaultyWriter(real, tracked)
+        return real
     if fault is not None and not fault.fired and not isinstance(file, int):
         if fault.covers(file):
             writing = any(c in mode for c in "wax+")
@@ -317,38 +407,67 @@ def arm_audio(kind):
     AUDIO.fired = False
 
 
+def _audio_point(real, stage):
+    """Fault point of an audio call: stage is "open", "read" or "both" (a
+    module-level ``soundfile.read`` / ``blocks`` opens and reads)."""
+    if AUDIO.kind is None or AUDIO.fired:
+        return
+    if stage in ("open", "both"):
+        if AUDIO.kind == "sf_open_crash":
+            AUDIO.fired = True
+            _crash()
+        if AUDIO.kind == "sf_open_error":
+            AUDIO.fired = True
+            raise real.LibsndfileError(2, prefix="Error opening (injected): ")
+    if stage in ("read", "both"):
+        if AUDIO.kind == "sf_read_crash":
+            AUDIO.fired = True
+            _crash()
+        if AUDIO.kind == "sf_read_error":
+            AUDIO.fired = True
+            raise real.LibsndfileError(3, prefix="Error reading (injected): ")
+
+
 class _SfShim:
-    """Stands in for the ``soundfile`` module inside soundevent.audio.io."""
+    """Stands in for the ``soundfile`` module inside soundevent.audio.io:
+    the ``SoundFile`` class and the module-level ``read`` / ``blocks`` /
+    ``info`` functions are fault points."""
 
     def __init__(self, real):
         self._real = real
-        shim = self
 
         class SoundFile(real.SoundFile):
             def __init__(self, *a, **kw):
-                if AUDIO.kind == "sf_open_crash" and not AUDIO.fired:
-                    AUDIO.fired = True
-                    _crash()
-                if AUDIO.kind == "sf_open_error" and not AUDIO.fired:
-                    AUDIO.fired = True
-                    raise real.LibsndfileError(
-                        2, prefix="Error opening (injected): "
-                    )
+                _audio_point(real, "open")
                 super().__init__(*a, **kw)
 
             def read(self, *a, **kw):
-                if AUDIO.kind == "sf_read_crash" and not AUDIO.fired:
-                    AUDIO.fired = True
-                    _crash()
-                if AUDIO.kind == "sf_read_error" and not AUDIO.fired:
-                    AUDIO.fired = True
-                    raise real.LibsndfileError(
-                        3, prefix="Error reading (injected): "
-                    )
+                _audio_point(real, "read")
                 return super().read(*a, **kw)
 
+            def buffer_read(self, *a, **kw):
+                _audio_point(real, "read")
+                return super().buffer_read(*a, **kw)
+
+            def blocks(self, *a, **kw):
+                _audio_point(real, "read")
+                return super().blocks(*a, **kw)
+
         self.SoundFile = SoundFile
-        del shim
+
+        def read(*a, **kw):
+            _audio_point(real, "both")
+            return real.read(*a, **kw)
+
+        def blocks(*a, **kw):
+            _audio_point(real, "both")
+            return real.blocks(*a, **kw)
+
+        def info(*a, **kw):
+            _audio_point(real, "open")
+            return real.info(*a, **kw)
+
+        self.read, self.blocks, self.info = read, blocks, info
 
     def __getattr__(self, name):
         return getattr(self._real, name)
@@ -364,6 +483,9 @@ def install(aoef: bool = True, audio: bool = False) -> dict:
     io.open = sim_open
     builtins.open = sim_open
     os.mkdir = sim_mkdir
+    os.open = sim_os_open
+    os.write = sim_os_write
+    os.close = sim_os_close
     # no rename is issued by today's save; a write-to-temp-then-rename
     # rewrite of it would run through these (pathlib's replace / rename
     # reach them by attribute lookup)
@@ -377,8 +499,10 @@ def install(aoef: bool = True, audio: bool = False) -> dict:
     _time.monotonic = sim_monotonic
     _time.monotonic_ns = sim_monotonic_ns
     _time.perf_counter = sim_monotonic
+    _time.sleep = sim_sleep
     INSTALLED["time"] = ["time.time", "time.time_ns", "time.monotonic",
-                         "time.monotonic_ns", "time.perf_counter"]
+                         "time.monotonic_ns", "time.perf_counter",
+                         "time.sleep"]
     if aoef:
         for name, module in sorted(sys.modules.items()):
             if module is None or not (
